@@ -32,11 +32,11 @@ KEYS = tuple(FLOORS["quick"].keys()) + ("back_to_back", "idle_then_arrival", "ar
 
 
 def plan(tier):
-    return {"shards": 4, "timeout": 900} if tier == "quick" else {"shards": 16, "timeout": 3000}
+    return {"shards": 4, "timeout": 900} if tier == "quick" else {"shards": 16, "timeout": 3400}
 
 
 def ncases(tier):
-    return 1200 if tier == "quick" else 7000
+    return 1200 if tier == "quick" else 30000
 
 
 def gen_case(rng, i):
